@@ -137,6 +137,10 @@ fn operand_json<'tcx>(tcx: TyCtxt<'tcx>, o: &Operand<'tcx>) -> J {
             if let Some(si) = c.const_.try_to_scalar_int() {
                 v.push(("bits", J::s(format!("{}", si.to_bits_unchecked()))));
             }
+            if let mir::Const::Unevaluated(uv, _) = c.const_ {
+                v.push(("uneval_def", J::s(crate::dps(tcx, uv.def))));
+                v.push(("uneval_local", J::Bool(uv.def.is_local())));
+            }
             if let mir::Const::Ty(_, ct) = c.const_ {
                 if let ty::ConstKind::Param(p) = ct.kind() {
                     v.push(("param", J::s(p.name.to_string())));
@@ -291,7 +295,11 @@ pub fn callee_json<'tcx>(
 pub fn dump_body<'tcx>(tcx: TyCtxt<'tcx>, ldid: LocalDefId) -> J {
     let did = ldid.to_def_id();
     let kind = tcx.def_kind(did);
-    let body: &Body<'tcx> = tcx.optimized_mir(did);
+    let body: &Body<'tcx> = if matches!(kind, DefKind::Fn | DefKind::AssocFn | DefKind::Closure) {
+        tcx.optimized_mir(did)
+    } else {
+        tcx.mir_for_ctfe(did)
+    };
     let env = ty::TypingEnv::post_analysis(tcx, did);
     let mut v: Vec<(&str, J)> = Vec::new();
     v.push(("id", J::s(crate::dps(tcx, did))));
